@@ -1231,12 +1231,7 @@ impl<'de> de::Deserializer<'de> for &mut Deserializer<'de> {
     }
     fn deserialize_byte_buf<V: Visitor<'de>>(self, visitor: V) -> Result<V::Value> {
         self.unroll_type()?;
-        check!(
-            *self.expect_type == TypeInner::Vec(TypeInner::Nat8.into())
-                && *self.wire_type == TypeInner::Vec(TypeInner::Nat8.into()),
-            "vec nat8"
-        );
-        let len = self.read_len()?;
+        let len = self.read_blob_len()?;
         self.add_cost(len.saturating_add(1))?;
         let bytes = self.borrow_bytes(len)?.to_owned();
         visitor.visit_byte_buf(bytes)
@@ -1246,7 +1241,7 @@ impl<'de> de::Deserializer<'de> for &mut Deserializer<'de> {
         match self.expect_type.as_ref() {
             TypeInner::Principal => self.deserialize_principal(visitor),
             TypeInner::Vec(t) if **t == TypeInner::Nat8 => {
-                let len = self.read_len()?;
+                let len = self.read_blob_len()?;
                 self.add_cost(len.saturating_add(1))?;
                 let slice = self.borrow_bytes(len)?;
                 visitor.visit_borrowed_bytes(slice)
